@@ -129,7 +129,12 @@ def step (st : DState) (line : String) : DState × String :=
     | _ => (st, "bad-op")
   | ["get", k] =>
     match parseInt? k with
-    | some k => let (r, c) := t.get cmp k; (st, showOpt r ++ " cmp-ok c=" ++ toString c)
+    | some k =>
+      let (r, c) := t.get cmp k
+      -- the same lookup on the pointer-level structure (`node.find` over the links); `C06.heap_find_first`
+      let viaHeap : Option (Option Int) := st.heap.bind fun h =>
+        (PTree.find cmp h k (h.nodes.size + 2) h.root).map fun p => (h.get p).map (·.value)
+      (st, showOpt r ++ (if viaHeap == some r then "" else " HEAP-MODEL-SPLIT") ++ " cmp-ok c=" ++ toString c)
     | _ => (st, "bad-op")
   | ["pget", k] =>
     match parseInt? k with
